@@ -5,6 +5,7 @@
    list between building the object (q.built) and asking (q.choices).
    event: [q      : the question (see Dialogue), sess : number of the input, obj : number of the question object,
            reask  : this object was asked before,
+           route  : the BufferedIO calls made since the previous ask ([op, ls, b]; the whole preparation for the first ask of an input),
            script : all lines of the input, start : lines consumed before this ask,
            obs    : [kind ("ret"|"exc"|"budget"), cls, val [t,s,l,b], reads, consumed, errs, prompts, outBytes, errBytes,
                      maxAfter (max_attempts of the object after the dialogue, 0 = unlimited)]]
@@ -61,6 +62,9 @@ Clauses(e) ==
   IN /\ Check(tid, l, "H.chain", "", IF l > 1 /\ T[l - 1].sess = e.sess
                                       THEN sc = T[l - 1].script /\ st = T[l - 1].start + T[l - 1].obs.consumed
                                       ELSE st = 0)
+     \* the environment of the dialogue is the I/O as the route of calls left it
+     /\ Check(tid, l, "H.route", "", (l = 1 \/ T[l - 1].sess # e.sess) => (e.route # <<>> /\ sc = EnvScript(e.route)))
+     /\ Check(tid, l, "H.route.inter", "", SetsInter(e.route) => qq.interactive = EnvInter(e.route))
      /\ Check(tid, l, "H.object", "", e.reask = (\E j \in 1..(l - 1) : T[j].obj = e.obj)
                                       /\ \A j \in 1..(l - 1) : T[j].obj = e.obj => T[j].q = qq)
      /\ Check(tid, l, "H.sane", "", HSane(sc, st, o))
